@@ -745,6 +745,56 @@ def main(ck: Check):
                                   "single": key(single) if sl else None,
                                   "candidates": [key(c) for c in cands], "emblem_candidates": [key(c) for c in ecands]}))
 
+    # ============================================================ C2. the entry points of optimizer/preset.py
+    from loguru import logger as _logger
+    from simaple.optimizer.preset import PresetOptimizer
+    _logger.disable("simaple")
+    preset_calls = 0
+    for k in range(3 if quick else 20):
+        if ck.elapsed() > ck.budget_s * (0.78 if quick else 0.85):
+            break
+        lname = lnames[(k + ck.seed) % 5]
+        logic = make_logic(lname, rng)
+        refd = make_reference_stat(lname, 300, rng)
+        ref = Stat(**refd)
+        job = rng.choice([j for j in link_jobs() if j in squad_jobs()])
+        alts = rng.sample([j for j in squad_jobs() if j != job], rng.choice([0, 1, 2]))
+        level = rng.choice([140, 200, 230, 260, 275, 290])
+        po = PresetOptimizer(union_block_count=rng.choice([3, 7, 20, 37, 44]), default_stat=Stat(), level=level,
+                             damage_logic=logic, character_job_type=job, alternate_character_job_types=alts,
+                             link_count=rng.choice([1, 3, 12, 13]), buff_duration_preempted=rng.random() < 0.5,
+                             artifact_level=10)
+        desc = {"kind": "PresetOptimizer", "logic": lname, "ref": refd, "level": level, "job": job.value,
+                "alternates": [a.value for a in alts], "union_block_count": po.union_block_count,
+                "link_count": po.link_count, "buff_duration_preempted": po.buff_duration_preempted,
+                "logic_params": {"attack_range_constant": logic.attack_range_constant, "mastery": logic.mastery}}
+        preset_calls += 1
+        evaluations += 1
+        hs = po.calculate_optimal_hyperstat(ref)
+        if hs.get_current_cost() > Hyperstat.get_maximum_cost_from_level(level) or any(lv > 15 for lv in hs.levels):
+            fail("calculate_optimal_hyperstat over budget or over level 15", **desc, levels=hs.levels, cost=hs.get_current_cost())
+        if logic.get_damage_factor(ref + hs.get_stat()) < logic.get_damage_factor(ref) * (1 - REL):
+            fail("calculate_optimal_hyperstat worse than nothing", **desc, levels=hs.levels)
+        ln = po.calculate_optimal_links(ref)
+        if ln.length() > max(po.link_count, 1) or not any(job in l.providing_jobs for l in ln.links):
+            fail("calculate_optimal_links over the link count or without the character's own link", **desc,
+                 links=[l.name for l in ln.links])
+        sq = po.calculate_optimal_union_squad(ref)
+        need = {job, *alts}
+        if sq.length() > max(po.union_block_count, len(need)) or not need <= {b.job for b in sq.blocks}:
+            fail("calculate_optimal_union_squad over the block count or without the pre-assigned jobs", **desc,
+                 blocks=[b.job.value for b in sq.blocks])
+        count = rng.choice([40, 57, 120, 180, 205])
+        oc = po.calculate_optimal_union_occupation(ref, count)
+        st = oc.occupation_state
+        if sum(st) > count or any(x > 40 for x in st) or (po.buff_duration_preempted and st[4] != 40):
+            fail("calculate_optimal_union_occupation over the count / limit or without the preset", **desc,
+                 occupation_count=count, state=st)
+        wp = po.calculate_optimal_weapon_potential(ref, rng.choice(preferred))
+        for pi, p in enumerate(wp):
+            if p.options and not legal_lines([o.stat for o in p.options], pi == 2):
+                fail("calculate_optimal_weapon_potential returned an illegal potential", **desc, potential=pi)
+
     # ============================================================ D. proofs and the model's answers
     t_py = ck.elapsed()
     with ck.locked():
@@ -868,6 +918,7 @@ def main(ck: Check):
         "affordable_single_steps_after_termination": affordable_single_steps,
         "oracle_entries_checked_against_configured_armor": oracle_checked,
         "weapon_cases": len(weapon_distinct),
+        "preset_optimizer_entry_point_rounds": preset_calls,
         "weapon_legal_combinations_enumerated": weapon_brute,
         "model_vs_code_requests": len(reqs),
         "model_vs_code_per_point": per_point,
